@@ -143,6 +143,12 @@ func (v *ControllerVisitor) visitController(controllerNode *ast.TypeSpec) (metad
 
 	// Go over all enumerated source files and look for receivers for the controller
 	for _, file := range v.context.ArbitrationProvider.GetAllSourceFiles() {
+		// A method always lives in its receiver's package - a same-named struct from another package is a different type
+		filePkg, err := v.context.ArbitrationProvider.Pkg().GetPackageForFile(file)
+		if err != nil || filePkg == nil || filePkg.PkgPath != controllerMeta.Struct.PkgPath {
+			continue
+		}
+
 		for _, declaration := range file.Decls {
 			switch funcDeclaration := declaration.(type) {
 			case *ast.FuncDecl:
